@@ -1,8 +1,8 @@
 #!/bin/bash
-# usage: tools/eval_benign_one.sh <AREA> <bK> <PROP>... — one benign change against some properties
+# usage: [EVAL_WT=/tmp/wt/E01] [BENIGN_DIR=/tmp/benign2] tools/eval_benign_one.sh <AREA> <bK> <PROP>... — one benign change against some properties
 A=$1; K=$2; shift; shift
-WT=/tmp/wt/$A
-( cd $WT && git checkout -q -- . && git clean -fdq && git apply /tmp/benign/$A/$K/patch.diff ) || exit 2
+WT=${EVAL_WT:-/tmp/wt/$A}; BD=${BENIGN_DIR:-/tmp/benign}
+( cd $WT && git checkout -q -- . && git clean -fdq && git apply $BD/$A/$K/patch.diff ) || exit 2
 for p in "$@"; do
   mkdir -p /tmp/evalhome_$p; cp /verif/known_findings.json /tmp/evalhome_$p/
   out=$(cd /verif && VERIF_HOME=/tmp/evalhome_$p VERIF_REPO=$WT ./bin/astverif check -prop $p 2>&1); rc=$?
